@@ -530,7 +530,7 @@ Proof.
   destruct (match opt1 a "type" with
             | Some n0 => match resolve_name e n0 with
                          | Some k => (with_kind sl k, [])
-                         | None => (with_kind sl KdUnknown, [WUnknownType])
+                         | None => (sl, [WUnknownType])
                          end
             | None => (sl, [])
             end) as [sl1 w0].
